@@ -336,4 +336,10 @@ Module Live.
   Definition read_OLD := qua_read_gen Tables.Tables.c06.hit_cols Tables.Tables.c06.hold_cols Tables.Tables.c06.bpm_cols
                                       Tables.Tables.c06.sv_cols meta_defaults hits_from_yaml_OLD holds_from_yaml_OLD.
   Definition write := qua_write meta_defaults.
+  (* OLD metadata defaults (before fix e825b78): initial_scroll_velocity = "" *)
+  Definition meta_defaults_OLD : list (Z * ytree) :=
+    map (fun kd => if fst kd =? K_InitialScrollVelocity then (fst kd, YStr []) else kd) meta_defaults.
+  Definition read_OLDMETA := qua_read_gen Tables.Tables.c06.hit_cols Tables.Tables.c06.hold_cols Tables.Tables.c06.bpm_cols
+                                          Tables.Tables.c06.sv_cols meta_defaults_OLD hits_from_yaml holds_from_yaml.
+  Definition write_OLDMETA := qua_write meta_defaults_OLD.
 End Live.
